@@ -55,6 +55,11 @@ def build(prop: str, rng: random.Random, seed: int, root: str):
     prob = P.draw_problem(rng, need_anchor=cls in ("RVI", "PER"))
     never = rng.random() < 0.25
     sol = P.draw_solver(rng, cls, prob["n"], never_converge=never, shuffle=None)
+    if cls in ("VI", "SA", "PI") and rng.random() < 0.2:
+        # discount factors on and around the boundaries of the documented domain
+        sol["kw"]["gamma"] = rng.choice([0.01, 0.1, 0.99, 0.999, 0.9999, 0.99999, 0.999995, 0.9999999] + ([1.0] if cls != "PI" else []))
+        never = False
+        sol["kw"]["epsilon"] = float(f"{P.loguniform(rng, 1e-3, 50.0):.3g}")
     if not never and rng.random() < 0.35:
         # loose tolerances: the stop rule fires within the first sweeps (for the periodic solver:
         # a measure that would be small before a full period has elapsed)
